@@ -163,11 +163,11 @@ func Compressor(name string) mcap.CustomCompressor {
 // Decompressors returns lexer decompressors for all custom codecs.
 func Decompressors() map[mcap.CompressionFormat]mcap.ResettableReader {
 	return map[mcap.CompressionFormat]mcap.ResettableReader{
-		"x-xor":                  &xorR{},
-		"x-xor-with-a-long-name": &xorR{},
-		"x-flate":                &flateR{},
-		"x-nonce":                &nonceR{},
-		"x-eager":                &nonceR{},
+		"x-xor":              &xorR{},
+		"x-xor-long-name-18": &xorR{},
+		"x-flate":            &flateR{},
+		"x-nonce":            &nonceR{},
+		"x-eager":            &nonceR{},
 	}
 }
 
@@ -191,8 +191,8 @@ func RefDecompressors() map[string]refmcap.Decompressor {
 		return out, nil
 	}
 	return map[string]refmcap.Decompressor{
-		"x-xor":                  xor,
-		"x-xor-with-a-long-name": xor,
+		"x-xor":              xor,
+		"x-xor-long-name-18": xor,
 		"x-flate": func(stored []byte, _ uint64) ([]byte, error) {
 			return io.ReadAll(flate.NewReader(bytes.NewReader(stored)))
 		},
